@@ -733,7 +733,7 @@ async def scenario_connect(subset, fail_at, fail_kind):
         def setup(core):
             async def connect():
                 if idx == fail_at:
-                    if fail_kind == "exn":
+                    if fail_kind in ("exn", "exn+closefault"):
                         raise Boom("connect failed for %s" % proto.name)
                     if fail_kind == "oserror":
                         raise OSError("unreachable")
@@ -762,6 +762,12 @@ async def scenario_connect(subset, fail_at, fail_kind):
                 log["closed"].append(proto.name)
 
                 async def bg():
+                    if fail_kind == "exn+closefault":
+                        # disconnecting is not instantaneous and may itself fail: the first protocol's
+                        # close task raises at once, the others need a moment
+                        if idx == 0:
+                            raise RuntimeError("close task of %s failed" % proto.name)
+                        await asyncio.sleep(1)
                     log["tasks_run"] += 1
                 return {asyncio.ensure_future(bg())}
 
@@ -797,6 +803,8 @@ async def scenario_connect(subset, fail_at, fail_kind):
         for _ in range(5):
             await asyncio.sleep(0)
         leaks = []
+        if fail_kind == "exn+closefault" and res not in ("ok", "raised:Boom"):
+            leaks.append("connect() reported %s instead of the failure that made it give up" % res)
         if res != "ok":
             for name in log["connected"]:
                 if name not in log["closed"]:
@@ -951,7 +959,13 @@ def takeover_part(ctx):
 def leak_key(op, leaks, hit):
     l = leaks[0]
     if op == "connect":
-        return "C18:connect:earlier-protocols-left-open" if "left connected" in l else "C18:connect:" + l.split()[0]
+        if "left connected" in l:
+            return "C18:connect:earlier-protocols-left-open"
+        if "instead of the failure" in l:
+            return "C18:connect:original-error-replaced"
+        if "background task" in l:
+            return "C18:connect:background-tasks-left"
+        return "C18:connect:" + l.split()[0]
     if op == "stream_file":
         if hit == "core.takeover":
             return "C18:stream_file:takeover-raises"
@@ -1069,7 +1083,7 @@ def run(ctx):
     for k in range(1, 6):
         for subset in itertools.combinations(protos, k):
             for fail_at in range(k):
-                for kind in ("exn", "oserror", "device_info", "interfaces", "features", "setup", "get_settings"):
+                for kind in ("exn", "oserror", "device_info", "interfaces", "features", "setup", "get_settings", "exn+closefault"):
                     r = vloop.run(scenario_connect, list(subset), fail_at, kind)
                     if kind == "features" and r["result"] == "ok":
                         continue     # the facade did not iterate the feature set: nothing was injected
